@@ -465,6 +465,13 @@ func indexedTxHashes(result *lib.TxResult) ([][]byte, lib.ErrorI) {
 	if ethHash := ethTxHash(result.Transaction); len(ethHash) != 0 && !bytes.Equal(ethHash, hash) {
 		hashes = append(hashes, ethHash)
 	}
+	// alias by signed content: the replay filter must recognise the same content under another
+	// signature representation (e.g. a multisig aggregate extended by a further member)
+	if result.Transaction != nil {
+		if contentHash, e := result.Transaction.ContentHash(); e == nil && !bytes.Equal(contentHash, hash) {
+			hashes = append(hashes, contentHash)
+		}
+	}
 	return hashes, nil
 }
 
